@@ -71,6 +71,7 @@ func famValues(e entry[S], c rec) {
 		}
 		g := e.Build(fs)
 		c.r.Evaluations++
+		drv.Tick()
 		if len(trace) != 0 {
 			c.fail("eager", fmt.Sprintf("functions %v were applied while composing, before the composition was invoked", trace), arg)
 			return
@@ -116,6 +117,7 @@ func famNil(e entry[any], c rec) {
 				}
 			}
 			c.r.Evaluations++
+			drv.Tick()
 			got := e.Build(fs)(arg)
 			if fmt.Sprint(trace) != fmt.Sprint(seqN(e.N)) {
 				c.fail("nil-order", fmt.Sprintf("with nil interface values in the pipeline (pattern %d) the functions were applied in the order %v, want %v", pattern, trace, seqN(e.N)), arg)
@@ -159,6 +161,7 @@ func famReentrant(e entry[S], c rec) {
 		}
 		g = e.Build(fs)
 		c.r.Evaluations++
+		drv.Tick()
 		got := g(S{V: 1})
 		if got.V != want(e.N, 1) {
 			c.fail("reentrant", fmt.Sprintf("function %d invokes the composition recursively; the outer invocation returned %d, want %d (call trace %v)", k+1, got.V, want(e.N, 1), trace), 1)
@@ -216,6 +219,7 @@ func famOverlap(e entry[S], c rec) {
 			}
 		}
 		c.r.Evaluations++
+		drv.Tick()
 		for inv := 0; inv < 2; inv++ {
 			if res[inv] != want(e.N, inv+1) {
 				c.fail("overlap", fmt.Sprintf("two overlapping invocations of one composition, schedule %v (which invocation applies its next function): invocation %d returned %d, want %d", schedule, inv, res[inv], want(e.N, inv+1)), inv+1)
